@@ -287,8 +287,21 @@ impl<'a> PoolSet<'a> {
         if let Some(class) = size_class(size)
             && let Some(ptr) = self.pools[class as usize].alloc()
         {
+            #[cfg(feature = "verif-hooks")]
+            super::verif_hooks::mem_trace(
+                "palloc",
+                u64::from(class),
+                u64::from(
+                    self.pools[class as usize]
+                        .block
+                        .index_of(ptr.cast::<u8>().as_ptr())
+                        .unwrap_or(u32::MAX),
+                ),
+            );
             return ptr;
         }
+        #[cfg(feature = "verif-hooks")]
+        super::verif_hooks::mem_trace("pfall", u64::from(size), 0);
         let layout = Layout::from_size_align(size as usize, 1).expect("invalid layout");
         self.arena.allocate(layout).expect("arena capacity exceeded")
     }
@@ -303,6 +316,14 @@ impl<'a> PoolSet<'a> {
         if let Some(class) = size_class(size)
             && self.pools[class as usize].contains(ptr.as_ptr())
         {
+            #[cfg(feature = "verif-hooks")]
+            super::verif_hooks::mem_trace(
+                "pfree",
+                u64::from(class),
+                u64::from(
+                    self.pools[class as usize].block.index_of(ptr.as_ptr()).unwrap_or(u32::MAX),
+                ),
+            );
             unsafe { self.pools[class as usize].dealloc(ptr) };
         }
     }
@@ -316,6 +337,8 @@ impl<'a> PoolSet<'a> {
     /// Falls through to the backing arena for strings > 256 bytes.
     pub(crate) fn alloc_str(&self, s: &str) -> ArenaString<'a> {
         let len = s.len();
+        #[cfg(feature = "verif-hooks")]
+        super::verif_hooks::mem_trace("psz", len as u64, 0);
         let slot = self.alloc(len as u32);
         let ptr = slot.cast();
         unsafe {
